@@ -213,6 +213,23 @@ Section Returned.
     fluent_get tgt (fluents s') =
     Some (match k with AAssign => v | AIncrease => old + v | ADecrease => old - v end)%float.
   Proof. exact (C03_numeric_prestate_lemma d eps a effs args ga objs s s' order uorder Hd Hn Hg Happ Hev Hc Ho Hu Hret). Qed.
+  (* conditional effects fire on the state BEFORE the action: a 'when' whose condition holds there adds its atoms, whatever
+     the other effects do to the atoms the condition reads ... *)
+  Theorem C03_when_adds : forall c ps p pargs,
+    In (EWhen c ps) effs -> In (PAdd p pargs) ps ->
+    let e := bind_args (spec_action a effs) args in
+    holds eps (d_types d) objs e s c = true ->
+    atom_in (p, map (subst e) pargs) (facts s') = true.
+  Proof. exact (C03_when_adds_lemma d eps a effs args ga objs s s' order uorder Hd Hn Hg Happ Hev Hc Ho Hu Hret). Qed.
+
+  (* ... and so does every instance of a 'forall-when', the variable ranging over the objects of the type and its subtypes *)
+  Theorem C03_forall_when_adds : forall v ty c ps p pargs o,
+    In (EForall v ty c ps) effs -> In (PAdd p pargs) ps ->
+    In o (objects_of_type (d_types d) objs ty) ->
+    let e := (v, o) :: bind_args (spec_action a effs) args in
+    holds eps (d_types d) objs e s c = true ->
+    atom_in (p, map (subst e) pargs) (facts s') = true.
+  Proof. exact (C03_forall_when_adds_lemma d eps a effs args ga objs s s' order uorder Hd Hn Hg Happ Hev Hc Ho Hu Hret). Qed.
 End Returned.
 
 (* a 'forall' inside the condition of a 'when' (the class of the repaired defect D40): (p o1) is false, so
@@ -248,5 +265,7 @@ Print Assumptions C03_frame_fluent.
 Print Assumptions C03_delete_then_add.
 Print Assumptions C03_deleted.
 Print Assumptions C03_numeric_prestate.
+Print Assumptions C03_when_adds.
+Print Assumptions C03_forall_when_adds.
 Print Assumptions C03_when_forall_example.
 Print Assumptions C03_example.
